@@ -120,6 +120,9 @@ TwoBuildViol(ev) ==
     V(ev.ref.rc = ev.cur.rc, "SameLoadResult")
     \cup (IF ev.ref.rc # 0 \/ ev.cur.rc # 0 THEN {}
           ELSE V(SameDescribed(ev.ref.out, ev.cur.out), "SameReEncoding")
+               \* ... and both took the bytes for the same fields: the multiset of (kind, size, value) each build writes
+               \* (a field moved inside a record reads other bytes, and writes them back where it found them)
+               \cup V(ev.ref.vals = ev.cur.vals, "SameFieldValues")
                \* a file in normal form written by one build is consumed block by block and re-encoded identically by the other
                \cup V(ev.writer = "sample" \/ ~ev.ref["in"].hs \/ ev.ref.out.sizes = ev.ref["in"].sizes, "ReferenceConsumesEveryBlockExactly")
                \cup V(ev.writer = "sample" \/ ~ev.cur["in"].hs \/ ev.cur.out.sizes = ev.cur["in"].sizes, "CurrentConsumesEveryBlockExactly")
